@@ -339,3 +339,101 @@ Lemma confined_both w g root p :
 Proof.
   intro G. split; [apply (maybe_load_confined w g root p G) | apply load_confined, G].
 Qed.
+
+(** * Writes are confined too *)
+Lemma frame_refl w p : frame w w p.
+Proof. repeat split; reflexivity. Qed.
+
+Lemma frame_trans w1 w2 w3 p : frame w1 w2 p -> frame w2 w3 p -> frame w1 w3 p.
+Proof.
+  intros [D1 [C1 R1]] [D2 [C2 R2]]. split; [congruence|]. split.
+  - intros id H. rewrite C2, C1 by exact H. reflexivity.
+  - intros q oq Dq Np.
+    assert (Dq2 : dir_obj w2 q = Some oq) by (unfold dir_obj in *; rewrite D1; exact Dq).
+    assert (Np2 : dir_obj w2 p <> Some oq) by (unfold dir_obj in *; rewrite D1; exact Np).
+    rewrite (R2 q oq Dq2 Np2). apply (R1 q oq Dq Np).
+Qed.
+
+Lemma frame_set_cfg w p id c : id_okb id = true -> frame w (set_cfg w id c) p.
+Proof.
+  intro I. split; [reflexivity|]. split; [|reflexivity].
+  intros id' H. apply cfg_at_set_other. intros ->. congruence.
+Qed.
+
+Lemma frame_set_repo w p o r : dir_obj w p = Some o -> frame w (set_repo w o r) p.
+Proof.
+  intro D. split; [reflexivity|]. split; [reflexivity|].
+  intros q oq Dq Np. apply repo_at_set_repo_other with (oq := oq); [exact Dq|]. congruence.
+Qed.
+
+Lemma frame_generate w root p id content md res w' :
+  id_okb id = true ->
+  generate_config w root (repo_at w p) id content md = (res, w') -> frame w w' p.
+Proof.
+  intros I. unfold generate_config.
+  destruct (repo_at w p) as [[ob r]|] eqn:R.
+  - destruct (r_writable r); intros [= _ <-].
+    + eapply frame_trans; [apply frame_set_cfg, I|]. apply frame_set_repo.
+      apply repo_at_dir in R. exact R.
+    + apply frame_set_cfg, I.
+  - intros [= _ <-]. apply frame_set_cfg, I.
+Qed.
+
+Lemma frame_handle w g root p o id md r w' g' :
+  repo_at w p = Some o -> id_okb id = true -> rng_okb g = true ->
+  handle_metadata_path w g root p o id md = (r, w', g') -> frame w w' p.
+Proof.
+  intros R I G. unfold handle_metadata_path.
+  destruct (option_eqb path_eqb md (Some p)); [intros [= _ <- _]; apply frame_refl|].
+  destruct md as [d|]; [|intros [= _ <- _]; apply frame_set_cfg, I].
+  destruct (dir_obj w d) as [od|]; [|intros [= _ <- _]; apply frame_set_cfg, I].
+  destruct (r_writable (snd o) && negb (od =? fst o)); [|intros [= _ <- _]; apply frame_refl].
+  destruct (next_id_ok g G) as [In _]. destruct (next_id g) as [newid g2]. cbn [fst] in In.
+  rewrite <- R.
+  destruct (generate_config w root (repo_at w p) newid (cd_toml (cfg_at w id)) (Some p)) as [[q|] w2] eqn:Gen;
+    intros [= _ <- _]; eapply frame_generate; eassumption.
+Qed.
+
+Theorem maybe_load_frame w g root p r w' g' :
+  rng_okb g = true -> maybe_load_config w g root p = (r, w', g') -> frame w w' p.
+Proof.
+  intro G. unfold maybe_load_config.
+  destruct (repo_at w p) as [[ob rp]|] eqn:R.
+  - destruct (r_id_file rp) as [|s|].
+    + unfold maybe_migrate_legacy. destruct (r_legacy rp) as [content|]; [|intros [= _ <- _]; apply frame_refl].
+      destruct (next_id_ok g G) as [In _]. destruct (next_id g) as [newid g2]. cbn [fst] in In.
+      rewrite <- R.
+      destruct (generate_config w root (repo_at w p) newid (Some content) (Some p)) as [[q|] w2] eqn:Gen;
+        intros [= _ <- _]; eapply frame_generate; eassumption.
+    + destruct (id_okb s) eqn:I; cbn [negb]; [|intros [= _ <- _]; apply frame_refl].
+      destruct (cd_md (cfg_at w s)) as [| |md].
+      * rewrite <- R.
+        destruct (generate_config w root (repo_at w p) s None (Some p)) as [[q|] w2] eqn:Gen;
+          intros [= _ <- _]; eapply frame_generate; eassumption.
+      * intros [= _ <- _]; apply frame_refl.
+      * intro H. eapply frame_handle; eassumption.
+    + intros [= _ <- _]; apply frame_refl.
+  - cbn. intros [= _ <- _]; apply frame_refl.
+Qed.
+
+Theorem load_frame w g root p r w' g' :
+  rng_okb g = true -> load_config w g root p = (r, w', g') -> frame w w' p.
+Proof.
+  intro G. unfold load_config.
+  destruct (maybe_load_config w g root p) as [[r1 w1] g1] eqn:M.
+  pose proof (maybe_load_frame w g root p r1 w1 g1 G M) as F1.
+  pose proof (proj2 (maybe_load_confined w g root p G)) as G1. rewrite M in G1. cbn [snd] in G1.
+  destruct r1 as [l|e]; [|intros [= _ <- _]; exact F1].
+  destruct (l_file l); [intros [= _ <- _]; exact F1|].
+  destruct (next_id_ok g1 G1) as [In _]. destruct (next_id g1) as [newid g2]. cbn [fst] in In.
+  destruct (generate_config w1 root (repo_at w1 p) newid None (Some p)) as [[q|] w2] eqn:Gen;
+    intros [= _ <- _]; (eapply frame_trans; [exact F1 | eapply frame_generate; eassumption]).
+Qed.
+
+Lemma writes_confined w g root p r w' g' :
+  rng_okb g = true ->
+  (maybe_load_config w g root p = (r, w', g') \/ load_config w g root p = (r, w', g')) ->
+  frame w w' p.
+Proof.
+  intros G [H|H]; [eapply maybe_load_frame | eapply load_frame]; eassumption.
+Qed.
